@@ -68,6 +68,7 @@ class Explorer:
         self._divcache = {}
         self.inputs = {}  # name -> numpy object array of SC / ('angle', var id): the symbolic inputs of the path
         self.draws = []  # sampler log: dicts(site, key, p (list of SC), k)
+        self.twin = None  # str(key) -> outcome while a twin run replays the draws of the first run
 
     def concretise(self, model):
         """evaluate the registered symbolic inputs at a model -> JSON-able dict (for replay)"""
